@@ -3,6 +3,7 @@ package main
 // Evaluation of contract expressions against symbolic states.
 
 import (
+	"go/token"
 	"fmt"
 	"go/constant"
 	"go/types"
@@ -349,6 +350,15 @@ func (env *Env) ident(name string) Value {
 			return Value{Origin: "pkg:" + tp.Path()}
 		}
 	}
+	// `rangeindex` in a clause of a loop that is no longer a range loop: for the canonical index loop `for i := ...; i < n; i++`
+	// the hidden index of the range form (the element processed last, -1 before the first) is i - 1 at the loop head. Lets loop
+	// clauses survive a change of the loop's form; used only where the name would otherwise be unknown, and a wrong guess can
+	// only make an obligation fail (the clause is still checked at loop entry and around the back edge).
+	if strings.HasPrefix(name, "rangeindex") && env.fr != nil {
+		if v, ok := env.indexLoopAlias(); ok {
+			return v
+		}
+	}
 	panic(specErr("unknown identifier %q", name))
 }
 
@@ -410,6 +420,49 @@ func (env *Env) constValue(v constant.Value, T types.Type) Value {
 
 // local finds a local variable (cell) of the current frame by source name. name#k selects the
 // k-th declaration (by position) among homonyms.
+// indexLoopAlias: the value of (index variable - 1) of the innermost loop around the frame's current block, when that loop
+// has the canonical form: its header ends in `if i < bound` with i a named local
+func (env *Env) indexLoopAlias() (Value, bool) {
+	fr := env.fr
+	if fr.block == nil {
+		return Value{}, false
+	}
+	var best *loopInfo
+	for _, li := range env.eng().loopsOf(fr.fn) {
+		if li.body[fr.block] && (best == nil || len(li.body) < len(best.body)) {
+			best = li
+		}
+	}
+	if best == nil || len(best.header.Instrs) == 0 {
+		return Value{}, false
+	}
+	iff, ok := best.header.Instrs[len(best.header.Instrs)-1].(*ssa.If)
+	if !ok {
+		return Value{}, false
+	}
+	cmp, ok := iff.Cond.(*ssa.BinOp)
+	if !ok || cmp.Op != token.LSS {
+		return Value{}, false
+	}
+	ld, ok := cmp.X.(*ssa.UnOp)
+	if !ok || ld.Op != token.MUL {
+		return Value{}, false
+	}
+	al, ok := ld.X.(*ssa.Alloc)
+	if !ok || al.Comment == "" || !isInteger(types.Unalias(al.Type()).Underlying().(*types.Pointer).Elem()) {
+		return Value{}, false
+	}
+	c := fr.cells[al]
+	if c == nil {
+		return Value{}, false
+	}
+	v, ok := env.st.cellVal[c]
+	if !ok {
+		return Value{}, false
+	}
+	return Value{T: mathInt, Tm: Sub(v.Tm, IntLit(1))}, true
+}
+
 func (env *Env) local(name string) (Value, bool) {
 	fr := env.fr
 	ord := 0
